@@ -617,7 +617,7 @@ candidateは、それぞれ `(:id id :candidate-id candidate-id :candidate value
         (setq ret (seq-concatenate 'string ret "っ"))
         (setq input (substring input 1)))
       ;; 1-(roman-tableで最大)文字で順次探す。
-      (let* ((found (cl-dotimes (len max-table-key-size)
+      (let* ((found (cl-dotimes (len (1+ max-table-key-size))
                       (let* ((subst (substring input 0 (min (seq-length input) len))))
                         (pcase (assoc subst chokan--roman-table)
                           ;; 見つかった場合はそのまま返す
